@@ -1622,3 +1622,304 @@ Proof.
     destruct (apply_extends_store _ _ _ _ _ _ Hap) as [[tb Eb] _].
     exists tc, ta, tb. rewrite Eb, Ea, Ec. auto.
 Qed.
+
+(* ================================================================= 9. break/continue only address enclosing loops *)
+
+(* a loop-control signal that escapes an expression accepted by the compile check `cc loops`
+   addresses one of the loops of `loops` (the loops around it in its compile unit) *)
+Definition sig_ok (loops : list (option ident)) (A : Type) (r : res A) : Prop :=
+  match r with
+  | Sig (SBreak l) | Sig (SCont l) => loop_ok l loops = true
+  | _ => True
+  end.
+
+Definition scoped {A} (loops : list (option ident)) (m : M A) : Prop :=
+  forall s r s', m s = (r, s') -> sig_ok loops A r.
+
+Lemma scoped_ret : forall A loops (a : A), scoped loops (ret a).
+Proof. unfold scoped, ret. intros. inversion H; subst. exact I. Qed.
+Lemma scoped_raise : forall A loops e, scoped loops (@raise A e).
+Proof. unfold scoped, raise. intros. inversion H; subst. exact I. Qed.
+
+Lemma scoped_bind : forall A B loops (m : M A) (k : A -> M B),
+  scoped loops m -> (forall a, scoped loops (k a)) -> scoped loops (bindM m k).
+Proof.
+  unfold scoped, bindM. intros A B loops m k Hm Hk s r s' H.
+  destruct (m s) as [[a|g|] s1] eqn:E.
+  - eapply Hk; eauto.
+  - inversion H; subst. apply (Hm _ _ _ E).
+  - inversion H; subst. exact I.
+Qed.
+
+Lemma scoped_no_loop_sig : forall A loops e (m : M A), scoped loops (no_loop_sig e m).
+Proof.
+  unfold scoped, no_loop_sig. intros A loops e m s r s' H.
+  destruct (m s) as [[a|[l|l|e0]|] s1]; inversion H; subst; exact I.
+Qed.
+
+(* a computation that never raises a loop signal is scoped for any loops *)
+Definition quiet {A} (m : M A) : Prop :=
+  forall s r s', m s = (r, s') -> (forall l, r <> Sig (SBreak l)) /\ (forall l, r <> Sig (SCont l)).
+
+Lemma quiet_scoped : forall A loops (m : M A), quiet m -> scoped loops m.
+Proof.
+  unfold quiet, scoped. intros A loops m Hq s r s' H. destruct (Hq _ _ _ H) as [Hb Hc].
+  destruct r as [a|[l|l|e]|]; simpl; auto; [exfalso; eapply Hb|exfalso; eapply Hc]; reflexivity.
+Qed.
+
+Lemma scoped_nil_quiet : forall A (m : M A), scoped [] m -> quiet m.
+Proof.
+  unfold quiet, scoped. intros A m Hs s r s' H. specialize (Hs _ _ _ H).
+  split; intros l ->; simpl in Hs; destruct l; simpl in Hs; discriminate.
+Qed.
+
+Lemma quiet_ret : forall A (a : A), quiet (ret a).
+Proof. unfold quiet, ret. intros. inversion H; subst. split; intros; discriminate. Qed.
+Lemma quiet_raise : forall A e, quiet (@raise A e).
+Proof. unfold quiet, raise. intros. inversion H; subst. split; intros; discriminate. Qed.
+Lemma quiet_bind : forall A B (m : M A) (k : A -> M B), quiet m -> (forall a, quiet (k a)) -> quiet (bindM m k).
+Proof.
+  unfold quiet, bindM. intros A B m k Hm Hk s r s' H.
+  destruct (m s) as [[a|g|] s1] eqn:E.
+  - eapply Hk; eauto.
+  - inversion H; subst. destruct (Hm _ _ _ E) as [Hb Hc].
+    split; intros l C; inversion C; subst; [eapply Hb|eapply Hc]; reflexivity.
+  - inversion H; subst. split; intros; discriminate.
+Qed.
+Lemma quiet_no_loop_sig : forall A e (m : M A), quiet (no_loop_sig e m).
+Proof.
+  unfold quiet, no_loop_sig. intros A e m s r s' H.
+  destruct (m s) as [[a|[l|l|e0]|] s1]; inversion H; subst; split; intros; discriminate.
+Qed.
+Lemma quiet_state : forall A (f : store -> res A * store),
+  (forall s, (forall l, fst (f s) <> Sig (SBreak l)) /\ (forall l, fst (f s) <> Sig (SCont l))) -> quiet f.
+Proof. unfold quiet. intros A f Hf s r s' H. specialize (Hf s). rewrite H in Hf. exact Hf. Qed.
+
+Lemma loop_ok_weaken : forall l mine loops, loop_ok l (mine :: loops) = true -> hits l mine = false ->
+  loop_ok l loops = true.
+Proof.
+  intros l mine loops H Hh. destruct l as [x|]; simpl in *; [|discriminate].
+  destruct mine as [y|]; simpl in *.
+  - rewrite Hh in H. exact H.
+  - exact H.
+Qed.
+
+Lemma quiet_bind_frame : forall f x v, quiet (bind f x v).
+Proof.
+  intros f x v. apply quiet_state. intros s. unfold bind.
+  destruct (nth_error (frames s) f); [|split; intros; discriminate].
+  destruct (assoc x f0); [|split; intros; discriminate].
+  destruct (type_of depth_limit (arrays s) v0) as [lt ars1].
+  destruct (type_of depth_limit ars1 v) as [rt ars2].
+  destruct lt; destruct rt; try (destruct (ty_eqb t t0)); split; intros; discriminate.
+Qed.
+
+Lemma quiet_bind_all : forall f xs, quiet (bind_all f xs).
+Proof.
+  induction xs as [|[x v] r IH]; simpl; [apply quiet_ret|].
+  apply quiet_bind; [apply quiet_bind_frame|]. intros _. apply IH.
+Qed.
+
+Lemma scoped_push : forall A loops (k : nat -> M A), (forall f, scoped loops (k f)) ->
+  scoped loops (fun s => let '(f, s1) := push_frame s in k f s1).
+Proof. unfold scoped. intros A loops k H s r s' E. destruct (push_frame s) as [f s1]. eapply H; eauto. Qed.
+
+Lemma quiet_push : forall A (k : nat -> M A), (forall f, quiet (k f)) ->
+  quiet (fun s => let '(f, s1) := push_frame s in k f s1).
+Proof. unfold quiet. intros A k H s r s' E. destruct (push_frame s) as [f s1]. eapply H; eauto. Qed.
+
+Section ScopedOpen.
+  Variable ev : list nat -> expr -> M value.
+  Variable ap : value -> list value -> M value.
+  Hypothesis Hev : forall loops env e, cc loops e = true -> scoped loops (ev env e).
+  Hypothesis Hap : forall f args, quiet (ap f args).
+
+  Lemma scoped_ev_list : forall loops env es, forallb (cc loops) es = true -> scoped loops (ev_list ev env es).
+  Proof.
+    induction es as [|e r IH]; simpl; intros H; [apply scoped_ret|].
+    apply andb_prop in H. destruct H as [He Hr].
+    apply scoped_bind; [apply Hev; assumption|]. intros v. apply scoped_bind; [apply IH; assumption|]. intros; apply scoped_ret.
+  Qed.
+
+  Lemma scoped_ev_begin : forall loops env es, forallb (cc loops) es = true -> scoped loops (ev_begin ev env es).
+  Proof.
+    induction es as [|e r IH]; simpl; intros H; [apply scoped_ret|].
+    apply andb_prop in H. destruct H as [He Hr].
+    destruct r as [|e2 r]; [apply Hev; assumption|].
+    apply scoped_bind; [apply Hev; assumption|]. intros _. apply IH. assumption.
+  Qed.
+
+  Lemma scoped_ev_cond : forall loops env arms d,
+    forallb (fun cb => cc loops (fst cb) && cc loops (snd cb)) arms = true -> cc loops d = true ->
+    scoped loops (ev_cond ev env arms d).
+  Proof.
+    induction arms as [|[c b] r IH]; simpl; intros d H Hd; [apply Hev; assumption|].
+    apply andb_prop in H. destruct H as [Hcb Hr]. apply andb_prop in Hcb. destruct Hcb as [Hc Hb].
+    apply scoped_bind; [apply Hev; assumption|]. intros v. destruct (truthy v); [apply Hev; assumption|apply IH; assumption].
+  Qed.
+
+  Lemma scoped_ev_and : forall loops env es, forallb (cc loops) es = true -> scoped loops (ev_and ev env es).
+  Proof.
+    induction es as [|e r IH]; simpl; intros H; [apply scoped_raise|].
+    apply andb_prop in H. destruct H as [He Hr].
+    destruct r as [|e2 r]; [apply Hev; assumption|].
+    apply scoped_bind; [apply Hev; assumption|]. intros v. destruct (truthy v); [apply IH; assumption|apply scoped_ret].
+  Qed.
+
+  Lemma scoped_ev_or : forall loops env es, forallb (cc loops) es = true -> scoped loops (ev_or ev env es).
+  Proof.
+    induction es as [|e r IH]; simpl; intros H; [apply scoped_raise|].
+    apply andb_prop in H. destruct H as [He Hr].
+    destruct r as [|e2 r]; [apply Hev; assumption|].
+    apply scoped_bind; [apply Hev; assumption|]. intros v. destruct (truthy v); [apply scoped_ret|apply IH; assumption].
+  Qed.
+
+  (* the arguments of a call are their own compile units: nothing escapes them *)
+  Lemma quiet_ev_args : forall env es, quiet (ev_args ev env es).
+  Proof.
+    induction es as [|e r IH]; simpl; [apply quiet_ret|].
+    destruct (cc [] e) eqn:Ec; [|apply quiet_raise].
+    apply quiet_bind; [apply scoped_nil_quiet; apply Hev; assumption|]. intros v.
+    apply quiet_bind; [apply IH|]. intros; apply quiet_ret.
+  Qed.
+
+  Lemma quiet_call_expr : forall env f args, quiet (call_expr ev ap env f args).
+  Proof.
+    intros env f args. unfold call_expr. apply quiet_bind.
+    - destruct f; try (apply scoped_nil_quiet; apply Hev; reflexivity);
+        destruct (cc [] _) eqn:Ec; try apply quiet_raise; apply scoped_nil_quiet; apply Hev; assumption.
+    - intros fv. destruct fv; try apply quiet_raise;
+        try (destruct args; [apply quiet_ret|apply quiet_raise]);
+        (apply quiet_bind; [apply quiet_ev_args|intros vs; apply Hap]).
+  Qed.
+
+  Lemma scoped_ev_letseq : forall loops f env bs, forallb (fun xb => cc loops (snd xb)) bs = true ->
+    scoped loops (ev_letseq ev f env bs).
+  Proof.
+    induction bs as [|[x e] r IH]; simpl; intros H; [apply scoped_ret|].
+    apply andb_prop in H. destruct H as [He Hr].
+    apply scoped_bind; [apply Hev; assumption|]. intros v.
+    apply scoped_bind; [apply quiet_scoped; apply quiet_bind_frame|]. intros _. apply IH. assumption.
+  Qed.
+
+  Lemma scoped_for_loop : forall k loops env lbl test step body,
+    forallb (cc (lbl :: loops)) body = true ->
+    scoped loops (for_loop ev k env lbl test step body).
+  Proof.
+    induction k as [|k IH]; intros loops env lbl test step body Hb; simpl.
+    - unfold scoped. intros s r s' H. inversion H; subst. exact I.
+    - apply scoped_bind; [apply scoped_no_loop_sig|]. intros t.
+      destruct (truthy t); [|apply scoped_ret].
+      assert (Hnext : scoped loops (_ <- no_loop_sig EUnspec (ev env step) ;; for_loop ev k env lbl test step body)).
+      { apply scoped_bind; [apply scoped_no_loop_sig|]. intros _. apply IH. assumption. }
+      unfold scoped. intros s r s' H.
+      pose proof (scoped_ev_begin (lbl :: loops) env body Hb s) as PB.
+      destruct (ev_begin ev env body s) as [[v|[l|l|e]|] s1] eqn:E; specialize (PB _ _ eq_refl); simpl in PB.
+      + eapply Hnext; eauto.
+      + destruct (hits l lbl) eqn:Eh; inversion H; subst; simpl; [exact I|]. eapply loop_ok_weaken; eauto.
+      + destruct (hits l lbl) eqn:Eh; [eapply Hnext; eauto|]. inversion H; subst; simpl. eapply loop_ok_weaken; eauto.
+      + inversion H; subst. exact I.
+      + inversion H; subst. exact I.
+  Qed.
+End ScopedOpen.
+
+Lemma quiet_prim_apply : forall ap p args, (forall f a, quiet (ap f a)) -> quiet (prim_apply ap p args).
+Proof.
+  intros ap p args Hap.
+  assert (Harith : forall op r acc, quiet (arith op acc r)).
+  { induction r as [|b r IH]; simpl; intros acc; [apply quiet_ret|].
+    destruct acc; try apply quiet_raise. destruct b; try apply quiet_raise. apply IH. }
+  assert (Hcmp : forall test a, quiet (compare_prim test a)).
+  { intros test a. unfold compare_prim. destruct a as [|x [|y [|? ?]]]; try apply quiet_raise.
+    apply quiet_state. intros s. destruct (cmp_val _ _ _ _); split; intros; discriminate. }
+  assert (Hget : forall a, quiet (get_arr a)).
+  { intros a. apply quiet_state. intros s. unfold get_arr. destruct (nth_error _ _); split; intros; discriminate. }
+  assert (Halloc : forall vs t, quiet (alloc_arr vs t)).
+  { intros vs t. apply quiet_state. intros s. split; intros; discriminate. }
+  assert (Hmp : forall f v, quiet (map_pairs ap f v)).
+  { intros f v. induction v; simpl; try apply quiet_raise; try apply quiet_ret.
+    apply quiet_bind; [apply Hap|]. intros h'. apply quiet_bind; [apply IHv2|]. intros; apply quiet_ret. }
+  assert (Hma : forall f xs t, quiet (map_arr ap f xs t)).
+  { intros f xs. induction xs as [|x r IH]; simpl; intros t; [apply quiet_ret|].
+    apply quiet_bind; [apply Hap|]. intros y. apply quiet_bind.
+    - destruct t; [apply quiet_ret|]. apply quiet_state. intros s.
+      destruct (type_of depth_limit (arrays s) y). split; intros; discriminate.
+    - intros t1. apply quiet_bind; [apply IH|]. intros; apply quiet_ret. }
+  destruct p; simpl;
+    repeat first
+      [ apply quiet_ret | apply quiet_raise | apply Halloc | apply Hcmp | apply Harith | apply Hap | apply Hmp
+      | apply quiet_bind; [first [apply Hget | apply Hma]|intros ?]
+      | apply quiet_state; intros ?; split; intros; discriminate
+      | match goal with |- quiet (match ?x with _ => _ end) => destruct x end
+      | match goal with |- quiet (if ?x then _ else _) => destruct x end ].
+  - apply quiet_state. intros s.
+    match goal with |- context [if ?c then _ else _] => destruct c end; split; intros; discriminate.
+Qed.
+
+Lemma eval_apply_scoped : forall n,
+  (forall loops env e, cc loops e = true -> scoped loops (eval n env e)) /\
+  (forall f args, quiet (apply n f args)).
+Proof.
+  induction n as [|n [IHe IHa]].
+  - split; intros.
+    + unfold scoped; simpl. intros s r s' H0. inversion H0; subst. exact I.
+    + apply quiet_state. intros s. simpl. split; intros; discriminate.
+  - split.
+    + intros loops env e Hc. destruct e; simpl in Hc |- *; try apply scoped_ret.
+      * apply quiet_scoped. apply quiet_state. intros s. destruct (lookup_chain _ _ _) as [[? ?]|]; split; intros; discriminate.
+      * apply scoped_bind; [apply scoped_ev_list; assumption|]. intros vs. apply quiet_scoped. apply quiet_state. intros; split; intros; discriminate.
+      * apply quiet_scoped. apply quiet_call_expr; assumption.
+      * apply scoped_ev_begin; assumption.
+      * apply andb_prop in Hc. destruct Hc. apply scoped_ev_cond; assumption.
+      * apply scoped_ev_and; assumption.
+      * apply scoped_ev_or; assumption.
+      * apply scoped_bind; [apply IHe; assumption|]. intros v.
+        apply scoped_bind; [apply quiet_scoped; apply quiet_bind_frame|]. intros; apply scoped_ret.
+      * apply scoped_bind; [apply IHe; assumption|]. intros v. apply quiet_scoped. apply quiet_state. intros s.
+        destruct (lookup_chain _ _ _) as [[f ?]|]; [split; intros; discriminate|].
+        pose proof (quiet_bind _ _ (bind (hd 0%nat env) x v) (fun _ => ret v) (quiet_bind_frame _ _ _) (fun _ => quiet_ret _ v) s) as Q.
+        destruct ((_ <- bind (hd 0%nat env) x v ;; ret v) s) as [r0 s0]. exact (Q _ _ eq_refl).
+      * apply andb_prop in Hc. destruct Hc as [Hbs Hbody]. destruct seq.
+        -- apply (scoped_push _ loops (fun f => _ <- ev_letseq (eval n) f (f :: env) bs ;; ev_begin (eval n) (f :: env) body)).
+           intros f. apply scoped_bind; [apply scoped_ev_letseq; assumption|]. intros _. apply scoped_ev_begin; assumption.
+        -- apply (scoped_push _ loops (fun f => vs <- ev_list (eval n) (f :: env) (map snd bs) ;;
+                                               _ <- bind_all f (rev (combine (map fst bs) vs)) ;; ev_begin (eval n) (f :: env) body)).
+           intros f. apply scoped_bind.
+           ++ apply scoped_ev_list; [assumption|]. rewrite forallb_forall in *. intros e He.
+              apply in_map_iff in He. destruct He as ([x e0] & <- & Hin). apply (Hbs _ Hin).
+           ++ intros vs. apply scoped_bind; [apply quiet_scoped; apply quiet_bind_all|]. intros _.
+              apply scoped_ev_begin; assumption.
+      * apply (scoped_push _ loops (fun f => ev_begin (eval n) (f :: env) es)).
+        intros f. apply scoped_ev_begin; assumption.
+      * apply andb_prop in Hc. destruct Hc as [Hc Hbody].
+        apply (scoped_push _ loops (fun f => _ <- no_loop_sig EUnspec (eval n (f :: env) e1) ;;
+                                             for_loop (eval n) n (f :: env) lbl e2 e3 body)).
+        intros f. apply scoped_bind; [apply scoped_no_loop_sig|]. intros _. apply scoped_for_loop; assumption.
+      * unfold scoped. intros s r s' H. inversion H; subst. simpl. exact Hc.
+      * unfold scoped. intros s r s' H. inversion H; subst. simpl. exact Hc.
+      * apply scoped_bind; [apply quiet_scoped; apply quiet_bind_frame|]. intros; apply scoped_ret.
+    + intros f args. destruct f; simpl; try apply quiet_raise.
+      * destruct (zip_params ps rest args []) as [binds|]; [|apply quiet_raise].
+        apply (quiet_push _ (fun fid => _ <- bind_all fid binds ;; no_loop_sig ELoop (ev_begin (eval n) (fid :: env) body))).
+        intros fid. apply quiet_bind; [apply quiet_bind_all|]. intros _. apply quiet_no_loop_sig.
+      * apply quiet_prim_apply. assumption.
+Qed.
+
+(* a break/continue that escapes an expression addresses a loop of its compile unit *)
+Theorem escaping_signal_addresses_enclosing_loop : forall n loops env e s r s',
+  cc loops e = true -> eval n env e s = (r, s') ->
+  match r with
+  | Sig (SBreak l) | Sig (SCont l) => loop_ok l loops = true
+  | _ => True
+  end.
+Proof. intros n loops env e s r s' Hc H. exact (proj1 (eval_apply_scoped n) loops env e Hc s r s' H). Qed.
+
+(* hence nothing escapes a top-level form, a call argument, or a function activation *)
+Theorem toplevel_has_no_stray_signal : forall n env e s r s',
+  cc [] e = true -> eval n env e s = (r, s') ->
+  (forall l, r <> Sig (SBreak l)) /\ (forall l, r <> Sig (SCont l)).
+Proof.
+  intros n env e s r s' Hc H.
+  apply (scoped_nil_quiet _ (eval n env e)) with (s := s) (s' := s'); [|assumption].
+  apply (proj1 (eval_apply_scoped n)). assumption.
+Qed.
